@@ -122,6 +122,29 @@ def clientIdentifier (c : Crypto) (t : Transport) (secret : Bytes) (k : Keys) : 
     | .panic w => .panic w
   | .unknown => .err .unknownGen
 
+/-! ### DTLS credentials
+
+The DTLS transport sends no tag.  Both ends configure the handshake with a pre-shared key
+(`dtls.Config{PSK: …}`), from which `pkg/dtls` derives everything that identifies the session: the
+ClientHello random the station's listener dispatches on (`clientHelloRandomFromSeed`) and the two
+certificates (`certsFromSeed`).  -/
+
+/-- station: `dtls.Config{PSK: reg.SharedSecret()}` in both branches of `Transport.Connect` -/
+def stationDtlsPsk (secret : Bytes) : Bytes := secret
+/-- client: `PrepareKeys(pubkey, sharedSecret, reader)` keeps `t.psk = sharedSecret` — not the seed,
+and nothing from the reader (whose position differs between library versions) -/
+def clientDtlsPsk (secret : Bytes) (_keys : Keys) : Bytes := secret
+
+/-- what the handshake derives from a pre-shared key; `hello` is `clientHelloRandomFromSeed`
+(HKDF-SHA256, info "clientHelloRandomFromSeed", 28 bytes: computed by the driver), the certificates
+are a function of the key as well (pinned by golden vectors in the harness) -/
+structure DtlsCred where
+  psk : Bytes
+  helloRandom : Bytes
+deriving DecidableEq, Repr
+
+def dtlsCred (hello : Bytes → Bytes) (psk : Bytes) : DtlsCred := ⟨psk, hello psk⟩
+
 /-! ### the whole derivation -/
 
 /-- what the two ends must agree on -/
